@@ -1,5 +1,6 @@
 SPECIFICATION TraceSpec
 CONSTANTS
+  LongFrames = {}
   Accounts = {1, 2}
   Keys = {1, 2}
   MaxDepth = 0
